@@ -10,7 +10,7 @@ while IFS='|' read -r name props file old new; do
       out=$(cd /verif && VERIF_REPO=$d bin/check $p 2>&1 | grep -E "^(VIOLATION|OK |INCONCLUSIVE|KNOWN)" | cut -c1-250 | head -4)
       echo "MUTANT $name on $p: $out"
     done
-    rm -rf $d /tmp/verif-evidence-_tmp_mut_$name
+    rm -rf $d; case "$name" in BENIGN*) ;; *) rm -rf /tmp/verif-evidence-_tmp_mut_$name;; esac   # replays of benign changes are kept for inspection
   else
     python3 /verif/selftest/mutant.py "$name" "$props" "$file" "$(printf '%b' "$old")" "$(printf '%b' "$new")"
   fi
